@@ -13,9 +13,9 @@ import (
 // values (anything that is not built from D and E is unknown); a statement is "reached for sure" in a world when every
 // condition around it is true there, tests of `firstError == nil` aside.
 //
-//   passEq  — a `continue` that depends on E is reached for sure when D and E hold, and in no other world;
-//   failNeq — an assignment to firstError that depends on E is reached for sure when D holds and E does not, and in
-//             no other world.
+//	passEq  — a `continue` that depends on E is reached for sure when D and E hold, and in no other world;
+//	failNeq — an assignment to firstError that depends on E is reached for sure when D holds and E does not, and in
+//	          no other world.
 func outputContract(info *types.Info, fd *ast.FuncDecl, loopBody *ast.BlockStmt) (passEq, failNeq bool, why []string) {
 	ld := newLocalDefs(info, fd)
 	isEmptyStr := func(e ast.Expr) bool {
@@ -78,7 +78,7 @@ func outputContract(info *types.Info, fd *ast.FuncDecl, loopBody *ast.BlockStmt)
 		return 0, false
 	}
 	type site struct {
-		kind string // continue | record
+		kind  string // continue | record
 		reach map[[2]bool]bool
 	}
 	var sites []*site
